@@ -976,18 +976,15 @@ def _contexts_active_by_referents(frame: types.FrameType, origin: Any) -> List[C
         root = origin
 
     for referent in gc.get_referents(root):
-        if isinstance(referent, types.MethodType) and referent.__func__.__name__ in (
-            "__exit__",
-            "__aexit__",
-        ):
-            # 'with' and 'async with' statements push a reference to the
-            # __exit__ or __aexit__ method that they'll call when exiting.
-            ret.append(
-                Context(
-                    is_async="a" in referent.__func__.__name__,
-                    obj=referent.__self__,
-                )
-            )
+        if not isinstance(referent, (types.MethodType, types.BuiltinMethodType)):
+            continue
+        # 'with' and 'async with' statements push a reference to the
+        # __exit__ or __aexit__ method that they'll call when exiting.
+        # It's a builtin method if the context manager is implemented in C
+        # (locks, files, ...).
+        name = getattr(getattr(referent, "__func__", referent), "__name__", None)
+        if name in ("__exit__", "__aexit__"):
+            ret.append(Context(is_async="a" in name, obj=referent.__self__))
     exiting = currently_exiting_context(frame)
     if exiting is not None:
         ret.append(Context(obj=None, is_async=exiting.is_async, is_exiting=True))
